@@ -1016,3 +1016,51 @@ V("twin: perpendicular to a plane with the join written as a function call", "C1
 V("1-tensor branch joins with the first argument twice", "C01", POINT, "        result = TensorDiagram(*[(o, e) if covariant else (e, o) for o in args]).calculate()",
   "        result = TensorDiagram(*[(o, e) if covariant else (e, o) for o in (args[0], *args[:-1])]).calculate()", "E19.join", "_join_meet_duality")
 V("twin: the line of two planes handed out in its other representation", "C01", POINT, "        return LineCollection.from_tensor(result).contravariant_tensor", "        return LineCollection.from_tensor(result).contravariant_tensor.copy()", "silent")
+
+
+# ------------------------------------------------------------------------------------------------ a static helper called on an instance (false alarm of round 13)
+_MUL_OLD = '''        if not isinstance(other, Tensor):
+            other = Tensor(other, copy=False)
+        return TensorDiagram((other, self)).calculate()
+
+    def __rmul__'''
+_MUL_NEW = '''        return self._contract(other, self)
+
+    @staticmethod
+    def _contract(source, target):
+        if not isinstance(source, Tensor):
+            source = Tensor(source, copy=False)
+        diagram = TensorDiagram()
+        diagram.add_edge(source, target)
+        return diagram.calculate()
+
+    def __rmul__'''
+for _p in ("C01", "C10"):
+    V(f"twin: Tensor.__mul__ through a static helper called on the instance ({_p})", _p, "geometer/base.py", _MUL_OLD, _MUL_NEW, "silent")
+
+
+# ------------------------------------------------------------------------------------------------ exponentiation by squaring (E19.act powers; seed R13_C06a)
+_POW_OLD = "        result = super().__pow__(power, modulo)\n        return type(self)(result, copy=False)"
+_POW_SQ = '''        square = self.array
+        rest = None
+        while power > 1:
+            if power & 1:
+                rest = %s
+            square = matmul(square, square)
+            power >>= 1
+        if rest is not None:
+            square = matmul(square, rest)
+        return type(self)(square, copy=False)'''
+V("powers by repeated squaring that keep only the last odd factor", "C06", TRANS, _POW_OLD, _POW_SQ % "square", "E19.act", "Tensor.__apply__", quick=True)
+V("twin: powers by repeated squaring", "C06", TRANS, _POW_OLD, _POW_SQ % "square if rest is None else matmul(rest, square)", "silent", quick=True)
+
+
+# ------------------------------------------------------------------------------------------------ np.vdot always flattens (E6.K9; seed R13_C10a)
+V("a scale taken with np.vdot in code a collection reaches", "C04", POINT, "        l = LineCollection.from_array(np.cross(basis[..., 0, :-1], basis[..., 1, :-1]))\n        p = l.base_point",
+  "        l = LineCollection.from_array(np.cross(basis[..., 0, :-1], basis[..., 1, :-1]))\n        l = l / np.sqrt(np.vdot(l.array, l.array))\n        p = l.base_point", "E6.K9", "PlaneTensor.mirror")
+V("twin: the same scale as a sum along the last axis", "C04", POINT, "        l = LineCollection.from_array(np.cross(basis[..., 0, :-1], basis[..., 1, :-1]))\n        p = l.base_point",
+  "        l = LineCollection.from_array(np.cross(basis[..., 0, :-1], basis[..., 1, :-1]))\n        l = LineCollection.from_array(l.array / np.sqrt(np.sum(l.array * l.array, axis=-1, keepdims=True)))\n        p = l.base_point", "silent")
+V("is_tangent through np.linalg.solve with the hyperplane coordinates as they are", "C04", CURVE, "        return self.dual.contains(plane)",
+  "        h = plane.array\n        pole = np.linalg.solve(self.array, h)\n        return np.isclose(np.sum(h * pole, axis=-1), 0, atol=EQ_TOL_ABS)", "E6.K9", "QuadricTensor.is_tangent")
+V("twin: is_tangent through np.linalg.solve with a trailing axis on the right-hand side", "C04", CURVE, "        return self.dual.contains(plane)",
+  "        h = plane.array[..., None]\n        pole = np.linalg.solve(self.array, h)\n        return np.isclose(np.sum(h * pole, axis=(-2, -1)), 0, atol=EQ_TOL_ABS)", "silent")
